@@ -151,6 +151,9 @@ def seeds(only=()):
     items = []
     for mdir in sorted(glob.glob(os.path.join(VERIF, "seeded", "S*"))):
         meta = json.load(open(os.path.join(mdir, "meta.json")))
+        if meta.get("neutralised_by"):
+            print("selftest seeds: %s skipped (no longer breaks the property: %s)" % (os.path.basename(mdir), meta["neutralised_by"][:60]))
+            continue
         items.append((os.path.basename(mdir), meta["breaks_property"], os.path.join(mdir, "patch.diff")))
     mj = os.path.join(VERIF, "lib", "mutants", "mutants.json")
     if os.path.exists(mj):
